@@ -16,6 +16,8 @@ static inline const char *str_t__c_str(str_t *s) { (void)s; return &__parse_end_
 static inline _Bool TMCG_ParseHelper__cm(str_t *s, str_t *magic, char sep) { (void)s; (void)magic; (void)sep; return nondet_bool(); }
 static inline _Bool TMCG_ParseHelper__nx(str_t *s, char sep) { (void)s; (void)sep; return nondet_bool(); }
 static inline _Bool TMCG_ParseHelper__gs(str_t *s, char sep, str_t *out) { (void)s; (void)sep; out->absid = (long)nondet_ulong(); return nondet_bool(); }
+size_t strtoul_calls; unsigned long strtoul_ret[4];   /* ghost log of the first four numeric fields */
 static inline unsigned long strtoul(const char *p, char **end, int base)
-{ (void)p; (void)base; __parse_end_char = nondet_char(); *end = &__parse_end_char; return nondet_ulong(); }
+{ (void)p; (void)base; __parse_end_char = nondet_char(); *end = &__parse_end_char; unsigned long r = nondet_ulong();
+  if (strtoul_calls < 4) strtoul_ret[strtoul_calls] = r; strtoul_calls = strtoul_calls + 1; return r; }
 #endif
